@@ -88,6 +88,16 @@ example : IsPrim (⟨.triangle, extrudeShapeTris 3 4 true, [], [(⟨3, "Position
     (extrudeShapeVerts 3 4) (extrudeShapeTris 3 4 true) :=
   ⟨rfl, rfl, by simp, by simp [extrudeShapeVerts]⟩
 
+/-- `extrude.polygon` (`Polygon`, `Circle.Extrude`, `CircleAlongSpline.Extrude`): whatever the
+    floating point winding test decides for each quad (`flips`), the mesh is well-formed. -/
+theorem extrudePolygon_wf (pathLen sides : Nat) (closed : Bool) (flips : List Bool) {m : MeshVal α}
+    (h : IsPrim m (polygonVerts pathLen sides) (polygonTris pathLen sides closed flips)) : WF m :=
+  prim_wf h (polygonTris_lt pathLen sides closed flips) (polygonTris_len pathLen sides closed flips)
+
+example : IsPrim (⟨.triangle, polygonTris 2 3 false [true, false, true], [], [(⟨3, "Position"⟩, List.replicate 8 ())]⟩ : MeshVal Unit)
+    (polygonVerts 2 3) (polygonTris 2 3 false [true, false, true]) :=
+  ⟨rfl, rfl, by simp, by simp [polygonVerts]⟩
+
 theorem quad_wf {m : MeshVal α} (h : IsPrim m quadVerts quadTris) : WF m :=
   prim_wf h quadTris_ok.1 quadTris_ok.2
 theorem cube_wf {m : MeshVal α} (h : IsPrim m cubeVerts cubeTris) : WF m :=
